@@ -737,6 +737,8 @@ def canon_effects(effs: List, side: str) -> str:
                     ct = "count" if ("len", c[1]) in lens else "len(%s) [no prefix written]" % c[1]
                 elif c[0] == "var":
                     ct = "count" if ("word", id(c[1])) in lens else "<decoded value, not the preceding word>"
+                elif c[0] == "bytes-of":
+                    ct = "count" if ("len", c) in lens else str(c)
                 elif c[0] == "size":
                     ct = "size(%s)" % c[1]
                 elif c[0] == "fields":
